@@ -8,9 +8,32 @@
   non-empty path is accepted, and an unclosed or empty reference is reported as an error
   rather than passed through or mis-split."
 
-  Property theorems only; helper lemmas live in `Lemmas/ParserL`.  All statements are about
-  the model of `src/refs/parser.rs` / `Token::parse` in `Model/Parser.lean`, for every string
-  (`Str = List Char`), with no bound on its length.
+  Property theorems; helper lemmas about the model functions live in `Lemmas/ParserL` (the
+  few auxiliary lemmas below are about notions *defined here*: `Sub`, `unescapedOpenAt`,
+  `unescape`, `encode`).  All statements are about the model of `src/refs/parser.rs` /
+  `Token::parse` in `Model/Parser.lean`, for every string (`Str = List Char`), with no bound
+  on its length.
+
+  Layout (sections in dependency order):
+    1  no marker ⇒ `Ok(None)` ⇒ rendered unchanged          `no_marker_*`, `containsMarker_iff`
+    2  every successful sub-parser consumes input            `*_consumes`
+    3  fuel monotone; `parseFuel` never runs out             `fuel_mono`, `parse_fuel_enough`
+    4  shape of results (no empty `Ref`, coalesced, …)       `ref_nonempty`, `parse_wf`, …
+    6  unclosed / empty reference ⇒ parse error              `unclosed_is_error`, `empty_ref_is_error`
+    7  `pre${path}post` accepted                             `simple_ref_accepted`
+    5  all `${` escaped ⇒ one literal, `unescape s`          `escaped_only_literal`
+    5b `\}` inside a reference, `\\` before `${`               `escaped_close_in_ref`, `double_backslash_before_ref`
+    8  print/parse round trip for nested token trees         `roundtrip`
+
+  Where a hypothesis here is weaker than in the informal request (e.g. `pre` only has to avoid
+  `$` and `\`, not also `{` `}`; `post` after `${}` is arbitrary) the theorem is stronger.
+
+  Two facts about the grammar that the statements had to respect (both agree with the Rust
+  unit tests, neither is a defect of the model):
+  * `\\}` stands for `\}` only at the start of an item (start of string or right after an
+    escape); in the middle of a `content` run it is copied unchanged — see `unescapeFrom`;
+  * a backslash before `\${` un-escapes it again (`\\${a}` = literal `\` then the reference
+    `a`), so "escaped" means: preceded by a backslash that is not itself preceded by one.
 -/
 import Reclass.Lemmas.ParserL
 import Reclass.Model.Eval
@@ -114,12 +137,13 @@ theorem parse_eq_of_fuel {s : Str} {n : Nat} (hm : containsMarker s = true)
 
 /-! ### 4. Shape of a successful parse -/
 
-/-- `u` occurs somewhere inside `t` (reflexive–transitive sub-token relation). -/
+/-- `Sub t u`: the token `t` occurs somewhere inside `u` (reflexive–transitive). -/
 inductive Sub : Token → Token → Prop where
   | refl (t : Token) : Sub t t
   | inRef {t u : Token} {ps : List Token} : u ∈ ps → Sub t u → Sub t (.ref ps)
   | inCombined {t u : Token} {ps : List Token} : u ∈ ps → Sub t u → Sub t (.combined ps)
 
+/-- Members of a list of well-formed inner tokens are well-formed. -/
 theorem wfInner_of_mem {ps : List Token} (h : Token.wfInnerL ps = true) {u : Token}
     (hu : u ∈ ps) : u.wfInner = true := by
   induction ps with
@@ -130,6 +154,7 @@ theorem wfInner_of_mem {ps : List Token} (h : Token.wfInnerL ps = true) {u : Tok
     · exact h.1
     · exact ih h.2 hm
 
+/-- Well-formedness is inherited by sub-tokens. -/
 theorem sub_wfInner {t u : Token} (hs : Sub t u) (hu : u.wfInner = true) : t.wfInner = true := by
   induction hs with
   | refl => exact hu
@@ -323,20 +348,25 @@ def unescapeFrom : Bool → Str → Str
   | true, '\\' :: '\\' :: '}' :: r => '\\' :: '}' :: unescapeFrom false r
   | _, c :: r => c :: unescapeFrom false r
 
+/-- `unescapeFrom` started at item start: the text a string with only escaped markers stands for. -/
 def unescape (s : Str) : Str := unescapeFrom true s
 
+/-- `\${` ↦ `${` in either mode. -/
 theorem unescapeFrom_refEsc (b : Bool) (r : Str) :
     unescapeFrom b ('\\' :: '$' :: '{' :: r) = '$' :: '{' :: unescapeFrom true r := by
   cases b <;> simp [unescapeFrom]
 
+/-- `\$[` ↦ `$[` in either mode. -/
 theorem unescapeFrom_invEsc (b : Bool) (r : Str) :
     unescapeFrom b ('\\' :: '$' :: '[' :: r) = '$' :: '[' :: unescapeFrom true r := by
   cases b <;> simp [unescapeFrom]
 
+/-- `\\}` ↦ `\}` at item start. -/
 theorem unescapeFrom_dbl (r : Str) :
     unescapeFrom true ('\\' :: '\\' :: '}' :: r) = '\\' :: '}' :: unescapeFrom false r := by
   simp [unescapeFrom]
 
+/-- Any character that starts none of the escapes is copied. -/
 theorem unescapeFrom_copy (b : Bool) (c : Char) (r : Str)
     (h1 : startsWith (c :: r) ['\\', '$', '{'] = false)
     (h2 : startsWith (c :: r) ['\\', '$', '['] = false)
@@ -355,6 +385,7 @@ def escOk (rp : Str) : Str → Bool
   | [] => true
   | c :: cs => (!startsWith (c :: cs) ['$', '{'] || escTail rp) && escOk (c :: rp) cs
 
+/-- The positional hypothesis implies the running one, from any split point. -/
 theorem escOk_of_noOpen_aux : ∀ (suf pre : Str),
     (∀ i, unescapedOpenAt (pre ++ suf) i = false) → escOk pre.reverse suf = true
   | [], _, _ => rfl
@@ -369,9 +400,11 @@ theorem escOk_of_noOpen_aux : ∀ (suf pre : Str),
     | false => rfl
     | true => rw [hs] at h0; simpa using h0
 
+/-- No unescaped opening at any position ⇒ `escOk` from the start. -/
 theorem escOk_of_noOpen {s : Str} (h : ∀ i, unescapedOpenAt s i = false) : escOk [] s = true :=
   escOk_of_noOpen_aux s [] h
 
+/-- After text that does not escape, no `${` may start. -/
 theorem escOk_not_open {rp i : Str} (h : escOk rp i = true) (hrp : escTail rp = false) :
     startsWith i ['$', '{'] = false := by
   cases i with
@@ -380,11 +413,13 @@ theorem escOk_not_open {rp i : Str} (h : escOk rp i = true) (hrp : escTail rp = 
     simp only [escOk, hrp, Bool.or_false, Bool.and_eq_true, Bool.not_eq_true'] at h
     exact h.1
 
+/-- `escOk` moves along the string. -/
 theorem escOk_tail {rp : Str} {c : Char} {cs : Str} (h : escOk rp (c :: cs) = true) :
     escOk (c :: rp) cs = true := by
   simp only [escOk, Bool.and_eq_true] at h
   exact h.2
 
+/-- `\\${` cannot occur: its `${` would be unescaped. -/
 theorem escOk_no_dbl {rp i : Str} (h : escOk rp i = true) :
     startsWith i ['\\', '\\', '$', '{'] = false := by
   cases hb : startsWith i ['\\', '\\', '$', '{'] with
@@ -420,12 +455,14 @@ theorem next_not_open {rp : Str} {c : Char} {r : Str} (h : escOk rp (c :: r) = t
 def StopAt (i : Str) : Prop :=
   i = [] ∨ startsWith i ['\\', '$', '{'] = true ∨ startsWith i ['\\', '$', '['] = true
 
+/-- A stopping point is not a `${`. -/
 theorem StopAt.not_open {i : Str} (h : StopAt i) : startsWith i ['$', '{'] = false := by
   rcases h with h | h | h
   · subst h; rfl
   · obtain ⟨r, hr⟩ := (startsWith_iff_prefix _ _).1 h; subst hr; rfl
   · obtain ⟨r, hr⟩ := (startsWith_iff_prefix _ _).1 h; subst hr; rfl
 
+/-- At a stopping point the mode of `unescapeFrom` does not matter. -/
 theorem StopAt.unescape_irrel {i : Str} (h : StopAt i) (b b' : Bool) :
     unescapeFrom b i = unescapeFrom b' i := by
   rcases h with h | h | h
@@ -437,6 +474,7 @@ theorem StopAt.unescape_irrel {i : Str} (h : StopAt i) (b b' : Bool) :
     simp only [List.cons_append, List.nil_append]
     rw [unescapeFrom_invEsc, unescapeFrom_invEsc]
 
+/-- Where `ref_not_open` fails in such a string, an escape starts. -/
 theorem refNotOpen_false_stop {rp i : Str} (h : escOk rp i = true)
     (ho : startsWith i ['$', '{'] = false) (hn : refNotOpen i = false) : StopAt i := by
   have hd := escOk_no_dbl h
@@ -475,6 +513,7 @@ theorem content_esc : ∀ (r rp : Str), escOk rp r = true → startsWith r ['$',
       simp only [hn', Bool.false_eq_true, if_false]
       refine ⟨rfl, h, refNotOpen_false_stop h ho hn', rfl⟩
 
+/-- `content` leaves no more than it got. -/
 theorem content_length_le (r : Str) : (content r).2.length ≤ r.length :=
   scan_length_le _ _ _
 
@@ -607,7 +646,7 @@ theorem escaped_close_in_ref (a b : Str)
   have hi : items 6 ('$' :: '{' :: (a ++ '\\' :: '}' :: (b ++ ['}']))) =
       .ok ([.ref [.lit (a ++ '}' :: b)]], []) := by
     rw [items_ref (reference_escClose (n := 1) ha hb), items_nil]; rfl
-  rw [parseRefF_of_items hi (by simp)]; rfl
+  rw [List.nil_append, parseRefF_of_items hi (by simp)]; rfl
 
 /-- **`\\` before `${` is one literal backslash and does *not* escape the reference**:
 `pre\\${path}` is `Combined [Literal (pre ++ "\"), Ref [Literal path]]`. -/
@@ -616,7 +655,10 @@ theorem double_backslash_before_ref (pre path : Str)
     (hpath : ∀ c ∈ path, c ≠ '$' ∧ c ≠ '\\' ∧ c ≠ '}') (hne : path ≠ []) :
     Token.parse (pre ++ '\\' :: '\\' :: '$' :: '{' :: (path ++ ['}'])) =
       .ok (some (.combined [.lit (pre ++ ['\\']), .ref [.lit path]])) := by
-  apply parse_ok_of (n := 9) (containsMarker_open (pre ++ ['\\', '\\']) _ |> by simpa using ·)
+  have hm : containsMarker (pre ++ '\\' :: '\\' :: '$' :: '{' :: (path ++ ['}'])) = true := by
+    have := containsMarker_open (pre ++ ['\\', '\\']) (path ++ ['}'])
+    simpa using this
+  apply parse_ok_of (n := 9) hm
   have h7 : items 7 ('$' :: '{' :: (path ++ ['}'])) = .ok ([.ref [.lit path]], []) := by
     rw [items_ref (reference_simple (n := 2) hne hpath), items_nil]; rfl
   have h8 : items 8 ('\\' :: '\\' :: '$' :: '{' :: (path ++ ['}'])) =
@@ -644,6 +686,7 @@ def encode : Token → Str
   | .lit s => s
   | .ref ps => '$' :: '{' :: (encodeL ps ++ ['}'])
   | .combined ps => encodeL ps
+/-- Concrete syntax of a token list: concatenation. -/
 def encodeL : List Token → Str
   | [] => []
   | t :: ts => encode t ++ encodeL ts
@@ -658,11 +701,13 @@ def plainTok : Token → Bool
   | .lit s => s.all plainChar
   | .ref ps => plainToks ps
   | .combined ps => plainToks ps
+/-- `plainTok` for every token of a list. -/
 def plainToks : List Token → Bool
   | [] => true
   | t :: ts => plainTok t && plainToks ts
 end
 
+/-- `all plainChar` spelled out. -/
 theorem plain_of_all {s : Str} (h : s.all plainChar = true) :
     ∀ c ∈ s, c ≠ '$' ∧ c ≠ '\\' ∧ c ≠ '}' := by
   intro c hc
@@ -682,6 +727,8 @@ theorem after_lit {ps : List Token} (hw : Token.wfInnerL ps = true)
     | ref q => exact ⟨_, by simp [encodeL, encode]; rfl⟩
     | combined q => simp [Token.wfInnerL, Token.wfInner] at hw
 
+/-- Round trip below the top level: the `ref_item` loop reads back a printed part list up
+to the closing `}`, and `reference` reads back a printed reference, at any adequate fuel. -/
 theorem roundtrip_aux : ∀ n,
     (∀ ps rest, Token.wfInnerL ps = true → noAdjLit ps = true → plainToks ps = true →
       (encodeL ps ++ '}' :: rest).length + 2 ≤ n →
@@ -737,12 +784,14 @@ theorem roundtrip_aux : ∀ n,
       have hA := ihA q rest h3 h2 hp (by omega)
       rw [reference_of_refItems hA hne, coalesce_of_noAdjLit q h2]
 
+/-- `reference` reads back a printed well-formed reference and leaves what follows. -/
 theorem reference_roundtrip {n : Nat} {q : List Token} {rest : Str}
     (hw : (Token.ref q).wfInner = true) (hp : plainToks q = true)
     (hl : (encodeL q ++ '}' :: rest).length + 3 ≤ n) :
     reference n ('$' :: '{' :: (encodeL q ++ '}' :: rest)) = .ok (.ref q, rest) :=
   (roundtrip_aux n).2 q rest hw hp hl
 
+/-- The top-level `item` loop reads back a printed well-formed token list. -/
 theorem items_roundtrip : ∀ (n : Nat) (ps : List Token), Token.wfInnerL ps = true →
     noAdjLit ps = true → plainToks ps = true → (encodeL ps).length + 2 ≤ n →
     items n (encodeL ps) = .ok (ps, []) := by
@@ -820,6 +869,83 @@ present; a plain tree has one exactly when it is not a bare literal). -/
 theorem roundtrip_parse (t : Token) (hw : t.wfTop = true) (hp : plainTok t = true)
     (hm : containsMarker (encode t) = true) : Token.parse (encode t) = .ok (some t) :=
   parse_ok_of hm (roundtrip t hw hp _ (Nat.le_refl _))
+
+/-! ### Non-vacuity and concrete instances
+
+(`"\\"` is one backslash in Lean string syntax.) -/
+
+/-- Beyond the end of the string nothing opens, so `∀ i` can be checked up to the length. -/
+theorem noOpen_of_bounded {s : Str} (h : ∀ i, i < s.length → unescapedOpenAt s i = false) :
+    ∀ i, unescapedOpenAt s i = false := by
+  intro i
+  by_cases hi : i < s.length
+  · exact h i hi
+  · have : s.drop i = [] := List.drop_eq_nil_of_le (by omega)
+    simp [unescapedOpenAt, this, startsWith]
+
+-- 1. no marker
+example : Token.parse "plain $ text { } \\ here".toList = .ok none :=
+  no_marker_parse_none _ (by decide)
+example : containsMarker "a$[b".toList = true ∧ containsMarker "a${b".toList = true ∧
+    containsMarker "a$b{".toList = false := by decide
+
+-- 3. the fuel bound `length + 2` is attained by the empty string
+example : items 1 [] = .error .fuel ∧ items 2 [] = .ok ([], []) := ⟨rfl, rfl⟩
+
+-- 5. escapes (the three instances asked for, straight from the model)
+example : Token.parse "\\${a}".toList = .ok (some (.lit "${a}".toList)) := by rfl
+example : Token.parse "x\\$[a]".toList = .ok (some (.lit "x$[a]".toList)) := by rfl
+example : Token.parse "\\\\${a}".toList =
+    .ok (some (.combined [.lit "\\".toList, .ref [.lit "a".toList]])) := by rfl
+-- which positions count as unescaped openings
+example : unescapedOpenAt "\\${a}".toList 1 = false ∧ unescapedOpenAt "${a}".toList 0 = true ∧
+    unescapedOpenAt "\\\\${a}".toList 2 = true ∧ unescapedOpenAt "x\\\\\\${a}".toList 4 = true := by
+  decide
+-- `unescape`: `\\}` loses a backslash only at item start
+example : unescape "a\\${b}\\$[c]\\\\}".toList = "a${b}$[c]\\\\}".toList := by decide
+example : unescape "\\\\}\\${b}\\\\}".toList = "\\}${b}\\\\}".toList := by decide
+-- the general theorem applied
+example : Token.parse "pass \\${foo} and \\$[bar]".toList =
+    .ok (some (.lit "pass ${foo} and $[bar]".toList)) :=
+  escaped_only_literal _ (by decide) (noOpen_of_bounded (by decide))
+-- 5b
+example : Token.parse "${foo\\}}".toList = .ok (some (.ref [.lit "foo}".toList])) :=
+  escaped_close_in_ref "foo".toList [] (by decide) (by decide)
+example : Token.parse "ab\\\\${foo}".toList =
+    .ok (some (.combined [.lit "ab\\".toList, .ref [.lit "foo".toList]])) :=
+  double_backslash_before_ref "ab".toList "foo".toList (by decide) (by decide) (by decide)
+
+-- 6. malformed references
+example : Token.parse "ab${cd".toList = .error (.parse "ab${cd".toList) :=
+  unclosed_is_error "ab".toList "cd".toList (by decide) (by decide)
+example : Token.parse "ab${}cd".toList = .error (.parse "ab${}cd".toList) :=
+  empty_ref_is_error "ab".toList "cd".toList (by decide)
+-- 4. shape: the result is never the empty reference, nor contains one
+example (n : Nat) (s : Str) (t : Token) (h : parseRefF n s = .ok t) : t ≠ .ref [] :=
+  fun h0 => ref_nonempty h (h0 ▸ Sub.refl _) rfl
+example (n : Nat) (s : Str) (ps : List Token) (h : parseRefF n s = .ok (.ref ps))
+    (q : List Token) (hq : Token.ref q ∈ ps) : q ≠ [] :=
+  ref_nonempty h (Sub.inRef hq (Sub.refl _))
+example : coalesce [.lit "a".toList, .lit "b".toList, .ref [.lit "c".toList], .lit "d".toList] =
+    [.lit "ab".toList, .ref [.lit "c".toList], .lit "d".toList] := by rfl
+
+-- 7. accepted references
+example : Token.parse "${foo}".toList = .ok (some (.ref [.lit "foo".toList])) :=
+  bare_ref_accepted "foo".toList (by decide) (by decide)
+example : Token.parse "a-${foo:bar}-b".toList =
+    .ok (some (.combined [.lit "a-".toList, .ref [.lit "foo:bar".toList], .lit "-b".toList])) :=
+  embedded_ref_accepted "a-".toList "foo:bar".toList "-b".toList (by decide) (by decide)
+    (by decide) (by decide) (by decide) (by decide)
+example : Token.parse "foo}${bar}".toList =
+    .ok (some (.combined [.lit "foo}".toList, .ref [.lit "bar".toList]])) :=
+  simple_ref_accepted "foo}".toList "bar".toList [] (by decide) (by decide) (by decide) (by decide)
+
+-- 8. nested references through the round trip
+example : Token.parse "${foo:${bar:${baz}}}-${x}".toList =
+    .ok (some (.combined [.ref [.lit "foo:".toList, .ref [.lit "bar:".toList, .ref [.lit "baz".toList]]],
+      .lit "-".toList, .ref [.lit "x".toList]])) :=
+  roundtrip_parse (.combined [.ref [.lit "foo:".toList, .ref [.lit "bar:".toList, .ref [.lit "baz".toList]]],
+      .lit "-".toList, .ref [.lit "x".toList]]) (by decide) (by decide) (by decide)
 
 end C06
 end Reclass
